@@ -7,6 +7,7 @@ ops
          the state is kept for the following "mortar" ops
   {"op":"mortar","i":fracture,"nlow":cells of the lower-dimensional grid}
       -> `createInterface` on face_cells[i] of the kept state
+  {"op":"cart_args","ndim":len(nx),"phys":len(physdims)|null} / {"op":"tensor_args","has_y":b,"has_z":b} -> {"dim":d} | {"err":..}
   {"op":"nodes","nN":..,"nC":..,"face_nodes":[[nodes] per unsplit face],"split":[nodes of the lower-dimensional neighbours]}
       -> `duplicateNodes` on the kept state (cell_faces after the face split; duplicated faces copy the nodes of their original)
   {"op":"line","nx":..,"ny":..,"axis":0|1|2,"s":node,"e":node} -> `findNodesOnLine`
@@ -22,6 +23,7 @@ abbrev St := Option Host
 def errName : Err → String
   | .valueError => "ValueError"
   | .assertionError => "AssertionError"
+  | .notImplementedError => "NotImplementedError"
 
 def jInc (j : Json) : R Inc := do
   let l ← jList jInt j
@@ -78,7 +80,7 @@ def step (st : St) (j : Json) : R (St × Json) := do
                       fc := fun i g => (fcA.getD i #[]).getD g none, pairs := [] }
     match splitFaces s with
     | .error e => pure (none, err (errName e))
-    | .ok s' => pure (some s', dumpHost s')
+    | .ok s' => pure (some s', (dumpHost s').setObjVal! "valid" (Json.bool (s.validB && s.noFracB)))
   | "mortar" =>
     let i ← fNat j "i"
     let nlow ← fNat j "nlow"
@@ -104,6 +106,18 @@ def step (st : St) (j : Json) : R (St × Json) := do
       | none => pure (st, err "no-convergence")
       | some r => pure (st, obj [("nN", ofNat r.nN), ("face_nodes", ofList (fun f => ofNats (r.faceNodes f)) (List.range s.nF)),
                                  ("new2old", ofNats r.newToOld)])
+  | "cart_args" =>
+    let ndim ← fNat j "ndim"
+    let phys ← field j "phys" >>= jOpt jNat
+    match cartGridDispatch ndim phys with
+    | .error e => pure (st, err (errName e))
+    | .ok d => pure (st, obj [("dim", ofNat d)])
+  | "tensor_args" =>
+    let hy ← fBool j "has_y"
+    let hz ← fBool j "has_z"
+    match tensorGridDispatch hy hz with
+    | .error e => pure (st, err (errName e))
+    | .ok d => pure (st, obj [("dim", ofNat d)])
   | "line" =>
     let nx ← fNat j "nx"
     let ny ← fNat j "ny"
